@@ -37,6 +37,27 @@ theorem schema_forest_ok (T : Ty) (name : B) (v : Val) (hT : T.wf = true) (hv : 
   · simp only [Ty.schemaTrees, Ty.treeW, Tree.alignedList, Tree.alignedAll, hal]
     simp [Nat.mod_one]
 
+/-- The same in the middle of a stream: when `k` bytes have been written before (`serialize_on_field_write` on a
+    position-tracking writer at position `k`, wrapped in a `SchemaWriter`), the rows tile `[k, k + |header| + |body|)`, the
+    children of every composite row tile it, and zero-copy rows are aligned — for every `k`. -/
+theorem schema_forest_ok_at (T : Ty) (name : B) (v : Val) (k : Nat) (hT : T.wf = true) (hv : T.wt v = true) :
+    ForestOK (T.schemaTreesAt name v k) k (37 + name.length + (T.enc v (k + (37 + name.length))).length) := by
+  have hroot := treeW_ok T v (k + (37 + name.length)) (Ty.trees_ok T hT v hv _)
+  simp only [Ty.treeW, Tree.tiled, Tree.alignedAll, Bool.and_eq_true] at hroot
+  obtain ⟨⟨hk, htl⟩, ⟨_, hal⟩⟩ := hroot
+  refine ⟨?_, ?_, ?_⟩
+  · have e : k + (37 + name.length) = k + 8 + 2 + 2 + 1 + 8 + 8 + (8 + name.length) := by omega
+    simp only [Ty.schemaTreesAt, Ty.treeW, contig, Tree.off, Tree.size]
+    simp only [if_true, e]
+    simp
+    omega
+  · have e : k + (37 + name.length) = k + 8 + 2 + 2 + 1 + 8 + 8 + (8 + name.length) := by omega
+    simp only [Ty.schemaTreesAt, Ty.treeW, Tree.tiledList, Tree.tiled, contig, Tree.off, Tree.size, htl, hk]
+    simp
+    omega
+  · simp only [Ty.schemaTreesAt, Ty.treeW, Tree.alignedList, Tree.alignedAll, hal]
+    simp [Nat.mod_one]
+
 /-- **Top-level rows tile the whole stream**: contiguous from offset 0 to the end of the stream. -/
 theorem top_tile (H : B → Nat) (T : Ty) (name : B) (v : Val) (hT : T.wf = true) (hv : T.wt v = true) :
     contig (T.schemaTrees name v) 0 = some (T.ser H name v).length := by
